@@ -118,7 +118,33 @@ pub fn conc_cases(s: &mut Sess, rng: &mut Rng, n: u64, prop: &'static str) {
         let nthreads = if rng.chance(1, 3) { 3 } else { 2 };
         let mut programs: Vec<Vec<Op>> = Vec::new();
         let mut total_ops = 0;
-        for t in 0..nthreads {
+        // a third of the cases: readers against writers of ONE key (reads racing with a replacing
+        // put of longer/shorter content, a remove, a remove_range)
+        let rw_race = case % 3 == 1;
+        if rw_race {
+            let k = keys[0].clone();
+            if !initial.contains_key(&k) {
+                let c = contents[rng.below(3) as usize];
+                s.op(&format!("put {} ={}", hx(&k), hx(c)));
+                initial.insert(k.clone(), c.to_vec());
+            }
+            for t in 0..nthreads {
+                let mut prog = Vec::new();
+                for _ in 0..(if t == 0 { 2 } else { rng.range(1, 2) }) {
+                    let c = contents[rng.below(3) as usize].to_vec();
+                    let op = if t == 0 {
+                        if rng.chance(2, 3) { let st = rng.below(2); Op::GetRange(k.clone(), st, *rng.pick(&[st + 1, 2, 3, 100, u64::MAX / 2, u64::MAX])) } else { Op::Get(k.clone()) }
+                    } else {
+                        match rng.below(8) { 0..=4 => Op::Put(k.clone(), c), 5 => Op::Remove(k.clone()), 6 => Op::RemoveAll, _ => Op::Get(k.clone()) }
+                    };
+                    prog.push(op);
+                    total_ops += 1;
+                }
+                programs.push(prog);
+            }
+            s.out.count("conc.rw-race-cases");
+        }
+        for t in 0..(if rw_race { 0 } else { nthreads }) {
             let mut prog = Vec::new();
             let nops = if total_ops >= 5 { 1 } else { rng.range(1, 2) };
             for _ in 0..nops {
@@ -150,12 +176,14 @@ pub fn conc_cases(s: &mut Sess, rng: &mut Rng, n: u64, prop: &'static str) {
         if puts.iter().any(|a| puts.iter().any(|b| a.0 != b.0 && a.1 == b.1)) { s.out.count("conc.same-key-puts"); }
         if puts.iter().any(|a| puts.iter().any(|b| a.0 != b.0 && a.2 == b.2)) { s.out.count("conc.same-content-puts"); }
         let progs_text: Vec<String> = programs.iter().map(|p| p.iter().map(text).collect::<Vec<_>>().join(";")).collect();
-        let obs = s.op(&format!("conc rand={} {}", rng.next() % 1_000_000, progs_text.join(" ")));
+        let policy = if rng.chance(1, 2) { "stall" } else { "rand" };
+        s.out.count(if policy == "stall" { "conc.policy-stall" } else { "conc.policy-rand" });
+        let obs = s.op(&format!("conc {policy}={} {}", rng.next() % 1_000_000, progs_text.join(" ")));
         // ---- oracles
         let steps: Vec<&str> = obs.split(" | ").collect();
         s.out.add("conc.steps", steps.len() as u64);
-        if obs.contains("TIMEOUT") || obs.contains("DEADLOCK") || obs.contains("TOOLONG") || obs.contains("NOTRUNNABLE") {
-            s.out.oracle_fail(format!("C15: a scheduled call did not complete: {}", steps.iter().find(|x| x.contains("TIMEOUT") || x.contains("DEADLOCK") || x.contains("TOOLONG") || x.contains("NOTRUNNABLE")).unwrap_or(&"")));
+        if obs.contains("HUNG") || obs.contains("TIMEOUT") || obs.contains("DEADLOCK") || obs.contains("TOOLONG") || obs.contains("NOTRUNNABLE") {
+            s.out.oracle_fail(format!("C15: a scheduled call did not complete: {}", steps.iter().find(|x| x.contains("HUNG") || x.contains("TIMEOUT") || x.contains("DEADLOCK") || x.contains("TOOLONG") || x.contains("NOTRUNNABLE")).unwrap_or(&"")));
             continue;
         }
         if let Some(st) = steps.iter().find(|x| x.contains("DANGLING")) {
